@@ -172,6 +172,20 @@ def enumerate_cases(tier):
                        "sibling": None, "pcpu_extra": 0, "size": 4,
                        "lru": False, "exec": ex, "derived": False,
                        "ncpu": 4, "online_delta": 0}
+    # two program objects of the class exist before either is loaded
+    for sib in ("smaller", "bigger"):
+        for extra in (0, 9):
+            hv = [{"fmt": "I", "default": 4}]
+            ops = [op("py_pread"), op("pr_hset", 0, 9), op("py_pread"),
+                   op("py_hget", 0), op("sib_hset", 0, 5), op("py_pread"),
+                   op("py_hget", 0)]
+            yield {"hv": hv, "kf": ["I"], "vf": ["I"],
+                   "keys": [[1], [2], [3], [4]], "ops": ops, "kf2": [],
+                   "vf2": [], "keys2": [], "same_struct": False,
+                   "loc": None, "loc_first": False, "hv_base": False,
+                   "sibling": sib, "sib_early": True, "pcpu_extra": extra,
+                   "size": 4, "lru": False, "exec": "fake",
+                   "derived": False, "ncpu": 4, "online_delta": 0}
     for total in (100, 254, 255, 256, 257, 258, 300, 513):
         for fmt in ("I", "q"):
             hv = [{"fmt": fmt, "default": 7}, {"fmt": "x", "default": 0},
@@ -386,6 +400,10 @@ def build(case, f):
                                       "program": lambda self: None})
     mine = [Sub(), Sub()] if sib == "smaller" else []
     e = cls(subprograms=mine) if mine else cls()
+    other = None
+    if sib and case.get("sib_early"):
+        # both objects exist before either is loaded
+        other = cls(subprograms=[Sub()]) if sib == "bigger" else cls()
     try:
         e.load()
     except Exception as err:
@@ -394,7 +412,8 @@ def build(case, f):
             raise AfterLoad(f"{type(err).__name__}: {err}") from err
         raise
     if sib:
-        other = cls(subprograms=[Sub()]) if sib == "bigger" else cls()
+        if other is None:
+            other = cls(subprograms=[Sub()]) if sib == "bigger" else cls()
         other.load()
         e.sibling = other
     if two:
